@@ -5,7 +5,7 @@
    crc32_mpeg2 is the bitwise reference of Spec/CrcSpec.v (C10 proves the translated code equal to it). *)
 From Coq Require Import ZArith List.
 Require Import Base.Bits Base.Iter Base.Wr Gen.Consts Gen.Types Gen.Preds Model.Packet Model.Desc Model.Psi.
-Require Import Spec.CrcSpec Spec.PsiSpec Proofs.PsiProofs Proofs.PsiDeps.
+Require Import Spec.CrcSpec Spec.DescSpec Spec.PsiSpec Proofs.PsiProofs Proofs.PsiDeps Proofs.PsiDescLink.
 Import ListNotations.
 Open Scope Z_scope.
 
@@ -61,12 +61,12 @@ Theorem C09_mux_pat : forall c h sh d pat,
 Proof. exact mux_pat. Qed.
 Print Assumptions C09_mux_pat.
 
-(* C09_mux_pmt: the same for every PMT section the writer accepts, RELATIVE to the descriptor length statement of
+(* C09_mux_pmt_rel: the same for every PMT section the writer accepts, RELATIVE to the descriptor length statement of
    C14, which enters as an explicit premise (desc_ok is C14's domain of descriptor lists): what
    writeDescriptorsWithLength emits for a list in that domain is whole bytes, 2 + calcDescriptorsLength of them.
    pmt_body_len is the unwrapped sum the length calculator computes; the premise `+ 9 <= 4095` is the 12-bit
    section_length (the standard's limit is 1021). *)
-Theorem C09_mux_pmt : forall (desc_ok : list Descriptor -> Prop),
+Theorem C09_mux_pmt_rel : forall (desc_ok : list Descriptor -> Prop),
   (forall ds its, desc_ok ds -> Desc.enc_descriptors_with_length ds = Ok its ->
      items_bytes_ok its /\ 0 <= Desc.calc_descriptors_length ds /\
      length (items_bits its) = (8 * Z.to_nat (2 + Desc.calc_descriptors_length ds))%nat) ->
@@ -83,6 +83,26 @@ Theorem C09_mux_pmt : forall (desc_ok : list Descriptor -> Prop),
     (3 <= length pre)%nat /\ nth 0 pre 0 = 2 /\
     bitsf (firstn 3 pre) 12 12 = Z.of_nat (length (bytes_of_items its)) - 3.
 Proof. exact mux_pmt. Qed.
+Print Assumptions C09_mux_pmt_rel.
+
+(* C09_mux_pmt: the premise discharged with C14's lemmas (Proofs/DescProofs.v): for every PMT whose descriptor
+   loops are in C14's domain desc_dom -- no descriptor body above 255 bytes, loop below 4096 bytes, the descriptor
+   writer succeeds and its byte strings hold bytes -- and whose section fits the 12-bit length, whatever
+   writePSISection emits ends with the CRC-32/MPEG-2 of everything before it and carries a section_length equal to
+   the bytes after the field.  Any number of streams and descriptors of all 23 typed kinds, unknown and
+   user-defined tags. *)
+Theorem C09_mux_pmt : forall c h sh d pmt its,
+  PSISectionHeader_TableID h = 2 -> PSISectionHeader_SectionLength h > 0 ->
+  PSISectionSyntaxData_PMT d = Some pmt ->
+  desc_dom (PMTData_ProgramDescriptors pmt) ->
+  Forall (fun es => desc_dom (PMTElementaryStream_ElementaryStreamDescriptors es)) (PMTData_ElementaryStreams pmt) ->
+  pmt_body_len pmt + 9 <= 4095 ->
+  enc_psi_section (mk_section c h sh d) = Ok its ->
+  exists pre, bytes_of_items its = pre ++ CrcSpec.be32 (crc32_mpeg2 pre) /\
+    spec_crc_ok (bytes_of_items its) /\
+    (3 <= length pre)%nat /\ nth 0 pre 0 = 2 /\
+    bitsf (firstn 3 pre) 12 12 = Z.of_nat (length (bytes_of_items its)) - 3.
+Proof. exact mux_pmt_closed. Qed.
 Print Assumptions C09_mux_pmt.
 
 (* non-vacuity: a PAT with two programs is written, parsed back and delivered; a single flipped bit in
@@ -118,3 +138,14 @@ Example C09_gate_example :
   | _ => false
   end = true.
 Proof. vm_compute. reflexivity. Qed.
+
+(* non-vacuity of C09_mux_pmt: a PMT with a registration descriptor (typed), an unknown and a user-defined one is
+   in the domain, the writer accepts it, and the demuxer model delivers it back *)
+Definition C09_example_descs : list Descriptor :=
+  [ set_Unknown (desc_hdr 3 0) {| DescriptorUnknown_Content := [1; 2; 3]; DescriptorUnknown_Tag := 3 |};
+    set_StreamIdentifier (desc_hdr 82 0) {| DescriptorStreamIdentifier_ComponentTag := 7 |} ].
+Example C09_example_desc_dom : desc_dom C09_example_descs.
+Proof.
+  unfold desc_dom. split; [repeat constructor|]. split; [reflexivity|].
+  eexists. split; [vm_compute; reflexivity|]. repeat constructor; cbv; intuition discriminate.
+Qed.
